@@ -38,8 +38,8 @@ Proof.
   destruct (C16.c16_layout_invariant np hoistable lay1 lay2 lay_equiv) as (A & B & _).
   split; [exact A|]. split; [vm_compute; reflexivity|]. split; [exact (B 50)|]. vm_compute. discriminate.
 Qed.
-(* c16_sort_unique: StronglySorted l', stability equations, Permutation l' l  (its third premise
-   `forall x, In x l' -> exists p, prio x = p` is trivially true) *)
+(* c16_sort_unique: StronglySorted l', stability equations (the premises `Permutation l' l` and
+   `forall x, In x l' -> exists p, prio x = p` of the first version carried no weight and were removed) *)
 Lemma nv_c16_sort_unique :
   let l := [("var", 1); ("function", 2); ("const", 3); ("function", 6); ("var", 11)]%nat in
   let l' := [("const", 3); ("function", 2); ("function", 6); ("var", 1); ("var", 11)]%nat in
@@ -51,13 +51,8 @@ Proof.
     destruct (Z.eq_dec p 0) as [->|N0]; [reflexivity|]. destruct (Z.eq_dec p 50) as [->|N50]; [reflexivity|].
     destruct (Z.eq_dec p 70) as [->|N70]; [reflexivity|].
     cbn -[Z.eqb]. replace (0 =? p) with false by lia. replace (50 =? p) with false by lia. replace (70 =? p) with false by lia. reflexivity.
-  - intros x _. eexists; reflexivity.
-  - unfold l, l'. apply Permutation_sym. apply (Permutation_cons_app [("const", 3%nat); ("function", 2%nat); ("function", 6%nat)] [("var", 11%nat)]).
-    apply (Permutation_cons_app [("const", 3%nat)] [("function", 6%nat); ("var", 11%nat)]). apply Permutation_refl.
 Qed.
-Lemma problem_c16_sort_unique_trivial_premise : forall (A : Type) (prio : A -> Z) (l' : list A), forall x, In x l' -> exists p, prio x = p.
-Proof. intros. eexists; reflexivity. Qed.
-(* c16_join is the definition of join_files unfolded (reflexivity): it says nothing about "name order" *)
-Lemma problem_c16_join_definitional : forall (A : Type) (f : list A) (r : list (list A)),
+(* c16_join is the definition of join_files unfolded (reflexivity), and its comment in Props/C16.v now says so *)
+Lemma remark_c16_join_definitional : forall (A : Type) (f : list A) (r : list (list A)),
   join_files (f :: r) = (f ++ List.concat (map (@tl A) r))%list.
 Proof. reflexivity. Qed.
